@@ -51,6 +51,7 @@ type Case struct {
 type EObs struct {
 	Res   string `json:"res"` // ok false dangling noop other
 	Msg   string `json:"msg,omitempty"`
+	Last  int    `json:"last"` // commit: the |last| argument actually passed (resolved from Root() when the case says -1)
 	HRoot int    `json:"hroot"`
 	MRoot int    `json:"mroot"`
 	Reach bool   `json:"reach"`
@@ -212,7 +213,17 @@ func Run(raw json.RawMessage) (any, error) {
 			ch := e.chunk(*ev.Chunk)
 			o.Res, o.Msg = classify(st.Put(ctx, ch, e.getAddrs))
 		case "commit":
-			ok, err := st.Commit(ctx, e.addrOf(ev.Current), e.addrOf(ev.Last))
+			last := e.addrOf(0)
+			if ev.Last < 0 {
+				last, err = st.Root(ctx)
+				if err != nil {
+					return nil, err
+				}
+			} else {
+				last = e.addrOf(ev.Last)
+			}
+			o.Last = e.idOf(last)
+			ok, err := st.Commit(ctx, e.addrOf(ev.Current), last)
 			o.Res, o.Msg = classify(err)
 			if err == nil && !ok {
 				o.Res = "false"
